@@ -88,7 +88,7 @@ Proof.
   set (m := match open 1 1 s0 with Some m => shallow_clone m 7 1 | None => {| m_version := 0; m_meta := 0; m_frags := []; m_indices := []; m_txn := None; m_bases := []; m_max_frag := 0 |} end).
   exists (put (del s0 (1, RManifest 1)) (1, RManifest 1) (CMan m)), m.
   split; [vm_compute; reflexivity|]. split; [vm_compute; reflexivity|]. split.
-  - intros e He. vm_compute in He. repeat (destruct He as [<-|He]; [cbn; discriminate|]). destruct He.
+  - apply no_root_b_true. vm_compute. reflexivity.
   - vm_compute. discriminate.
 Qed.
 Print Assumptions C42_base_path_refuted.
@@ -105,6 +105,6 @@ Example C42_nonvacuous :
   resolve_tag 2 3 (remove_root 1 (copy_root 1 2 s)) = Some 2 /\ latest 2 (remove_root 1 (copy_root 1 2 s)) = 6.
 Proof.
   cbv zeta. split; [intros v m []|]. split.
-  - intros e He. vm_compute in He. repeat (destruct He as [<-|He]; [cbn; discriminate|]). destruct He.
+  - apply no_root_b_true. vm_compute. reflexivity.
   - vm_compute. repeat split; try reflexivity; discriminate.
 Qed.
